@@ -34,7 +34,7 @@ struct Builder {
 	bool env_masked_only = false;
 
 	Builder(Context &g, uint64_t seed, const char *stream) : gc(g), rng(rt::substream(seed, stream)) {
-		plan.property = g.property; plan.seed = seed;
+		plan.property = g.property; plan.seed = seed; plan.items = g.N;
 		rt::Rng hr = rt::substream(seed, "heap"); plan.heap_seed = hr.next() | 1;
 		nkeys = g.small ? 8 : 4; ninputs = 8;
 		for (int i = 0; i < nkeys; ++i) plan.keys.push_back(Blob(KEY_POOL[i % 8].len, KEY_POOL[i % 8].seed, KEY_POOL[i % 8].tweak));
